@@ -31,7 +31,7 @@ RULE = (
 )
 MUST_HIT = ["first_interrupted_by_exception", "abandoned_generator_closed_mid_run", "buffer_position_set_while_closed",
             "first_open_token", "first_after_cut", "first_init_phase", "first_gen_partial", "first_gen_unstarted",
-            "split_region", "split_bytes", "split_recorder", "validator", "buffer_reopen", "recorder_pass_abandoned",
+            "split_region", "split_bytes", "split_recorder", "validator", "buffer_reopen", "recorder_pass_abandoned", "buffer_reopened_behind_a_reader",
             "abandoned_generator_finalised_after_next_split"]
 ASSUMPTIONS = ["fresh-object output is the reference (judged by C01-C07)"]
 BOUNDS = {"quick": dict(L1=6, L2=5, n=400), "thorough": dict(L1=8, L2=7, n=8000)}
@@ -302,6 +302,28 @@ def check_buf(case, rec):
     fresh.open()
     if fresh.read(k) != got:
         raise Violation("reopened source differs from a fresh one", case)
+    if case.get("via_reader") and N:
+        # the same through a reader that keeps reading from the source: the source is consumed (to the end, or
+        # partly), closed and reopened by the program, and the reader's next block is the first block of the audio
+        B = case["via_reader"]
+        src2 = BufferAudioSource(data, sr, sw, ch)
+        reader = auditok.AudioReader(src2, block_dur=B / sr)
+        reader.open()
+        nread = 0
+        while nread < case.get("reader_reads", 10**9):
+            if reader.read() is None:
+                break
+            nread += 1
+        src2.close()
+        src2.open()
+        blk = reader.read()
+        want_blk = data[: min(B, N) * bps]
+        if blk != want_blk:
+            raise Violation(
+                f"a reader over a buffer source that was consumed ({nread} blocks), closed and reopened returned "
+                f"{'None' if blk is None else str(len(blk) // bps) + ' samples'} instead of the first block of the audio", case)
+        classes.add("buffer_reopened_behind_a_reader")
+        rec.note(case, True, classes, out=nread)
 
 
 def check_case(case, rec):
@@ -320,6 +342,8 @@ def explicit_cases():
         {"t": "tok", "pat1": "0111101", "pat2": "10", "p": [2, 4, 1, 0, 0, 0], "first": ["raise", 5, "list"], "kind": "obj"},
         {"t": "tok", "pat1": "0111101", "pat2": "10", "p": [2, 4, 1, 0, 0, 0], "first": ["raise", 5, "gen"], "kind": "char"},
         {"t": "buf", "sr": 10, "sw": 2, "ch": 2, "N": 9, "salt": 1, "reads": [2], "then": 4, "pos_closed": 5},
+        {"t": "buf", "sr": 10, "sw": 2, "ch": 2, "N": 9, "salt": 1, "reads": [2], "then": 4, "via_reader": 2},
+        {"t": "buf", "sr": 10, "sw": 1, "ch": 1, "N": 12, "salt": 2, "reads": [], "then": 3, "via_reader": 4, "reader_reads": 2},
         {"t": "split", "audio": a, "win": [2, 4, 1, False, False], "how": "region", "times": 3},
         {"t": "split", "audio": a, "win": [2, 4, 1, True, False], "how": "bytes", "times": 2},
         {"t": "split", "audio": a, "win": [1, 3, 0, False, True], "how": "recorder", "times": 4},
@@ -365,7 +389,9 @@ def strategy(draw):
     return {"t": "buf", "sr": draw(st.sampled_from([8, 16000])), "sw": draw(st.sampled_from([1, 2, 4])),
             "ch": draw(st.integers(1, 3)), "N": N, "salt": draw(st.integers(0, 1000)),
             "reads": draw(st.lists(st.integers(1, 10), max_size=4)), "then": draw(st.integers(1, 12)),
-            "pos_closed": draw(st.one_of(st.none(), st.integers(1, 30)))}
+            "pos_closed": draw(st.one_of(st.none(), st.integers(1, 30))),
+            "via_reader": draw(st.one_of(st.none(), st.integers(1, 6))),
+            "reader_reads": draw(st.sampled_from([10**9, 10**9, 0, 1, 3]))}
 
 
 def _exh(p, L1, L2, lo, hi):
